@@ -2,7 +2,7 @@
 import itertools
 from .family import Family
 
-PROPS_MODULES = ["C15", "BitmapOps"]
+PROPS_MODULES = ["C15", "BitmapOps", "HandlerOps"]
 RULE = ("family `log`: a real VhostUserDaemon whose guest memory is GuestMemoryMmap<BitmapMmapRegion> is driven by an "
         "independent raw vhost-user peer: SET_MEM_TABLE / ADD_MEM_REG / REM_MEM_REG with 1..4 page-aligned memfd-backed "
         "regions whose pages share log bytes, SET_LOG_BASE on a shared memfd with every log size from too small to ample "
